@@ -2,6 +2,7 @@ package main
 
 import (
 	"context"
+	"os"
 	"fmt"
 	"strings"
 	"time"
@@ -42,6 +43,10 @@ func dischargeBatch(c *FuncCtx, obs []*Obligation, tmp string, gi int) int64 {
 	}
 	c.mu.Unlock()
 	file := writeTmp(tmp, fmt.Sprintf("batch%d.smt2", gi), b.String())
+	if d := os.Getenv("GOWP_BATCHDUMP"); d != "" {
+		os.MkdirAll(d, 0o755)
+		os.WriteFile(fmt.Sprintf("%s/batch%d_%s.smt2", d, gi, sanitizeFile(c.fnName)), []byte(b.String()), 0o644)
+	}
 	start := time.Now()
 	budget := 3*len(obs) + 5
 	if budget > 120 {
